@@ -100,6 +100,16 @@ NoneVariants(k) ==
 \*                       caches (qualifier cache, names of known classes) start
 \*                       from nothing there
 \* type/value mismatches and malformed values
+\*   huge_hex, huge_binary   the other number forms with thousands of digits
+\*                       (converting them is unlimited, PRINTING the value in
+\*                       an error message is not)
+\*   null_key, array_key  an instance whose key property is NULL / whose key
+\*                       property is an array: no instance path can be built
+\*   emb_nonstring_value a number / boolean / array of numbers as the value of
+\*                       an EmbeddedInstance property (the nested compile gets
+\*                       something that is not text)
+\*   emb_qual_nonstring  (class) the EmbeddedInstance qualifier re-declared
+\*                       with a numeric type and used with a number
 \*   real_huge_int       an integer literal too large for a float as the value
 \*                       of a real32 element (the conversion overflows instead
 \*                       of reporting a bad value)
@@ -110,7 +120,8 @@ ValueKinds(k) ==
                           "mixed_array", "real_for_int", "int_for_bool",
                           "int_for_string", "char16_long", "real_overflow",
                           "conflicting_flavors", "huge_array_size",
-                          "bool_for_int", "huge_digits", "real_huge_int"}
+                          "bool_for_int", "huge_digits", "real_huge_int",
+                          "huge_hex", "huge_binary"}
     [] k = "class"    -> {"int_overflow", "huge_int", "neg_unsigned",
                           "str_for_int", "bad_datetime", "int_for_datetime",
                           "array_for_scalar", "scalar_for_array",
@@ -120,7 +131,8 @@ ValueKinds(k) ==
                           "qual_str_for_int", "qual_int_overflow",
                           "qual_array_for_scalar", "qual_conflicting_flavors",
                           "dup_property", "ref_default_int",
-                          "undefined_alias", "real_huge_int"}
+                          "undefined_alias", "real_huge_int",
+                          "huge_hex", "huge_binary", "emb_qual_nonstring"}
     [] k = "instance" -> {"int_overflow", "huge_int", "neg_unsigned",
                           "str_for_int", "bad_datetime", "int_for_datetime",
                           "array_for_scalar", "scalar_for_array",
@@ -130,20 +142,31 @@ ValueKinds(k) ==
                           "str_for_ref",
                           "undefined_alias", "dup_property", "emb_bad_syntax",
                           "emb_class", "emb_empty", "emb_unknown_class",
-                          "real_huge_int"}
+                          "real_huge_int", "huge_hex", "huge_binary",
+                          "null_key", "array_key", "emb_nonstring_value"}
     [] k = "namespace" -> {"nomatch_colon", "empty", "space", "withhost",
                            "withscheme", "trailing_slash", "double_slash",
                            "hexesc_end"}
-    [] k = "include"  -> {"hexesc_name", "nonascii_name"}
+    [] k = "include"  -> {"hexesc_name", "nonascii_name", "nul_name",
+                          "nul_in_dir", "surrogate_name", "overlong_name",
+                          "overlong_path", "below_file", "dot_name",
+                          "escaped_name"}     \* = FileNameKinds
     [] OTHER -> {}
 
 DepKinds(k) ==
   CASE k = "class"    -> {"unknown_superclass", "unknown_qualifier",
                           "unknown_refclass", "unknown_embclass",
                           "super_cycle_searchpath", "super_in_searchpath",
-                          "super_self"}   \* class X : X, any lexical case
+                          "super_self",   \* class X : X, any lexical case
+                          \* <super>.mof is on the search path but declares
+                          \* another class
+                          "super_wrongfile_searchpath",
+                          \* class C : Base; class D : C; class C : D - the
+                          \* re-declaration closes a superclass cycle
+                          "super_redefine_cycle"}
     [] k = "instance" -> {"unknown_class", "unknown_property",
-                          "class_in_searchpath", "class_cycle_searchpath"}
+                          "class_in_searchpath", "class_cycle_searchpath",
+                          "class_wrongfile_searchpath"}
     [] k = "include"  -> {"missing", "dir", "empty_name", "self", "mutual"}
     [] OTHER -> {}
 
@@ -189,8 +212,65 @@ GarbageSyn == {"token_soup", "random_printable", "deep_braces", "only_hash",
                "unbalanced_close", "long_line", "keywords_only"}
 PragmaSyn == {"noparen", "nonstring_param", "no_name", "no_hash"}
 
+(* Optional parts.  Every production of the MOF grammar has optional parts  *)
+(* (the yacc actions find the others by counting positions).  The `opt`     *)
+(* variants make every optional part of a production present / absent in    *)
+(* EVERY combination; parameter a is the index into the product of the      *)
+(* dimensions (mixed radix, first dimension = least significant digit):     *)
+(*   instance opt      qualifier list (deprecated but legal) x alias x      *)
+(*                     property list (one | several | with a qualifier list)*)
+(*   class opt         qualifier list x alias x superclass x features       *)
+(*                     (none | one | several)                               *)
+(*   class opt_prop    one property: qualifier list x (scalar | array |     *)
+(*                     reference) x default value                           *)
+(*   class opt_method  one method: qualifier list x parameters (none | one  *)
+(*                     | several) x qualifier list on the parameter x       *)
+(*                     parameter (scalar | array | reference)               *)
+(*   qualDecl opt      array x default value x flavors (none | one |        *)
+(*                     several) x scope elements (one | several)            *)
+OptVariants(k) == CASE k = "qualDecl" -> {"opt"}
+                    [] k = "class" -> {"opt", "opt_prop", "opt_method"}
+                    [] k = "instance" -> {"opt"}
+                    [] OTHER -> {}
+OptDims(k, v) ==
+  CASE k = "instance" -> <<2, 2, 3>>
+    [] k = "qualDecl" -> <<2, 2, 3, 2>>
+    [] k = "class" /\ v = "opt_prop" -> <<2, 3, 2>>
+    [] k = "class" /\ v = "opt_method" -> <<2, 3, 2, 3>>
+    [] OTHER -> <<2, 2, 2, 3>>
+RECURSIVE ProdTo(_, _)
+ProdTo(q, i) == IF i = 0 THEN 1 ELSE q[i] * ProdTo(q, i - 1)
+OptRange(k, v) == 0..(ProdTo(OptDims(k, v), Len(OptDims(k, v))) - 1)
+IsOpt(p) == p.d = "none" /\ p.v \in OptVariants(p.k)
+\* i-th digit of the parameter of an opt production
+OptDigit(p, i) == (p.a \div ProdTo(OptDims(p.k, p.v), i - 1))
+                  % OptDims(p.k, p.v)[i]
+OptProds(k) == UNION {{P(k, "none", v, a) : a \in OptRange(k, v)}
+                      : v \in OptVariants(k)}
+InstHasQuals(p) == p.k = "instance" /\ IsOpt(p) /\ OptDigit(p, 1) = 1
+InstHasAlias(p) == p.k = "instance" /\ IsOpt(p) /\ OptDigit(p, 2) = 1
+
+(* Lexeme classes of the FILE NAME a pragma include names (the text between *)
+(* the quotes is a MOF string: every character can be spelled with an       *)
+(* escape).  None of the names can be opened as a MOF file:                 *)
+(*   hexesc_name     ends in a hex escape      nonascii_name  non-ASCII     *)
+(*   nul_name        contains NUL (\x0)        nul_in_dir     NUL below an  *)
+(*   surrogate_name  lone surrogate (\xD800)                  existing dir  *)
+(*   overlong_name   one component longer than NAME_MAX                     *)
+(*   overlong_path   longer than PATH_MAX                                   *)
+(*   below_file      a path below a regular file (x.mof/y.mof)              *)
+(*   dot_name        "." / ".." (directories)                               *)
+(*   escaped_name    contains \" \t \n spelled with escapes                 *)
+(* (missing, dir, empty_name: DepKinds of include)                          *)
+FileNameKinds == {"hexesc_name", "nonascii_name", "nul_name", "nul_in_dir",
+                  "surrogate_name", "overlong_name", "overlong_path",
+                  "below_file", "dot_name", "escaped_name"}
+\* names the operating system interface refuses before it looks for a file
+OsRefusedNames == {"nul_name", "nul_in_dir", "surrogate_name"}
+
 Catalog(k) ==
   {P(k, "none", v, 0) : v \in NoneVariants(k)}
+  \cup OptProds(k)
   \cup (IF k = "garbage"
         THEN {P(k, "lex", v, 0) : v \in GarbageLex}
              \cup {P(k, "syntax", v, 0) : v \in GarbageSyn}
@@ -316,7 +396,8 @@ NsFull == P("namespace", "none", "other_full", 0)
 SessionsF(kinds) ==
   {[main |-> <<f>>, inc |-> << >>, good |-> <<r>>]
    : f \in {x \in FocusOf(kinds \cap {"class"})
-              : x.d \in {"value", "dependency"} /\ x.v # "super_self"},
+              : x.d \in {"value", "dependency"}
+                /\ x.v \notin {"super_self", "super_redefine_cycle"}},
      r \in Retry}
 
 SessionsG(kinds) ==
@@ -336,8 +417,7 @@ SessionParts(maxprod, kinds) ==
 AllProds(ses) == Rng(ses.main) \cup Rng(ses.inc)
 
 (* the session names a file that cannot be opened *)
-UnopenableKinds == {"missing", "dir", "empty_name", "hexesc_name",
-                    "nonascii_name"}
+UnopenableKinds == {"missing", "dir", "empty_name"} \cup FileNameKinds
 MissingFile(ses) ==
   \E p \in AllProds(ses) : p.k = "include" /\ p.v \in UnopenableKinds
 
